@@ -731,14 +731,45 @@ func (d *protoDom) call(st *sState, call *ssa.Call, name string, args []sVal) (b
 			return fail("io.ReadFull from something other than the caller's random source")
 		}
 		// a second draw at the same site: the previous candidate was rejected and the loop starts over
+		protoObjs := func() map[int]string {
+			m := map[int]string{}
+			for id, h := range st.heap {
+				if hp, ok := h.(*hProto); ok && hp.kind != "hash" && hp.set {
+					t := "?"
+					if hp.t != nil {
+						t = hp.t.String()
+					}
+					m[id] = hp.kind + ":" + t
+				}
+			}
+			return m
+		}
 		for _, site := range st.drawSites {
 			if site == ssa.Instruction(call) {
+				// the loop starts over: what was computed before the loop must be what it was in the first round
+				if snap := st.drawSnap[call]; snap != nil {
+					now := protoObjs()
+					for id, was := range snap {
+						if cur, ok := now[id]; ok && cur != was {
+							st.iterDirty = append(st.iterDirty, fmt.Sprintf("%s became %s", was, cur))
+						}
+					}
+					sort.Strings(st.iterDirty)
+				}
 				st.dead = true
 				e.restarts = append(e.restarts, st)
 				return true, nil
 			}
 		}
 		st.drawSites = append(st.drawSites, call)
+		{
+			ns := map[ssa.Instruction]map[int]string{}
+			for k, v := range st.drawSnap {
+				ns[k] = v
+			}
+			ns[call] = protoObjs()
+			st.drawSnap = ns
+		}
 		// failure: buffer contents are unspecified
 		bad := st.clone()
 		badArr := bad.heap[b.id].(*hArray)
